@@ -112,9 +112,12 @@ var plans = map[string]*Plan{
 		Rule: "C01's history generator with reclamation on in 80% of cases and extra weight on multi-block writes that straddle blocks owned by different chain files; every quiescent point compares revert-on-copy of every retained user-created snapshot with its image at creation, in-place reverts compare the live volume with the image; " +
 			"non-trivial = >=1 unaligned write, >=1 chain mutation and >=1 reopen/reload; distinct = hash of the op-kind/alignment-class sequence" + "; on real processes (cluster engine, scenario snaplife): 16-19 user snapshots cut into a write stream through the controller REST API, all but 2-3 deleted through DELETE deleteSnapshot (the checkpoint must be refused), one replica killed and rebuilt so that the checkpoint moves above them, then the replicas' own background cleaners (60 s ticker) merge them while writes go on - every chain member that vanishes is checked against the selection predicate of the statement on the replica's last sampled REST state, live read at every reader position, stored live image and every retained user snapshot (revert-on-copy, every replica) are compared with the model; then Controller.Revert through REST to a retained user snapshot and a full read (thorough: also a full restart before it: retained members and attributes survive)",
 		Assumptions: rengAssume,
-		Floor:       map[string]int64{"snapshot_images_compared": 100, "writes": 200},
+		Floor:       map[string]int64{"snapshot_images_compared": 100, "writes": 200, "controller_reverts": 30, "controller_reverts_with_a_refusing_replica": 10},
 		Jobs: func(tier string) []Job {
 			js := jobs("reng", 16, tierN(tier, 6, 150), "", time.Duration(tierN(tier, 10, 80))*time.Minute)
+			// controller side of the revert clause (E2): Controller.Revert over the replicas' REST API with one replica
+			// refusing it in two thirds of the cases, full reads at every reader position against the snapshot's model image
+			js = append(js, jobs("ctlsim", 3, tierN(tier, 25, 400), "", time.Duration(tierN(tier, 10, 60))*time.Minute)...)
 			return append(js, snapLife(tier, 1, 3)...)
 		},
 		CrashSig: rengCrash("C06"),
@@ -173,9 +176,11 @@ var plans = map[string]*Plan{
 		Rule: "histories with 1-5 growths (byte counts and human-readable sizes, 1-24 blocks) interleaved with I/O of all shapes, snapshots, removals, reverts and reopen; shrink, garbage, empty and zero sizes must be refused without change; after growth: old range unchanged, new range zero and writable, every snapshot image = old image + zeros, size survives reopen; " +
 			"non-trivial as C01; distinct = hash of the op-kind sequence",
 		Assumptions: rengAssume,
-		Floor:       map[string]int64{"resizes": 30, "resize_refusals_probed": 20, "controller_resizes": 20},
+		Floor:       map[string]int64{"resizes": 30, "resize_refusals_probed": 20, "controller_resizes": 20, "rest_resize_cells": 80, "rest_resizes_accepted": 6},
 		Jobs: func(tier string) []Job {
 			js := jobs("reng", 12, tierN(tier, 8, 130), "", time.Duration(tierN(tier, 10, 80))*time.Minute)
+			// the resize action of the replica's REST API, as the controller uses it: every state x valid and invalid sizes
+			js = append(js, jobs("restfuzz", 1, tierN(tier, 2, 25), "", time.Duration(tierN(tier, 10, 60))*time.Minute)...)
 			// controller side of Resize on the controller engine
 			return append(js, jobs("ctlsim", 4, tierN(tier, 50, 1250), "", time.Duration(tierN(tier, 10, 60))*time.Minute)...)
 		},
